@@ -17,6 +17,27 @@ R24d  exception funnels agree (also serves C22 "user errors exit 2"): every catc
       in runner.py hands the caught object to the shared funnel (or wraps it in the
       DelayedException carrier that the main process re-raises into that funnel), and
       the funnel re-raises I/O and user errors instead of logging them.
+R24f  every error class with its own __reduce__ hands every constructor parameter back
+      in its position (worker results return to the parent by pickling).
+
+Accepted spellings (all decided on resolved facts: origins() of the value, identity of
+the object a local holds, reachability) - none of them is a different program:
+  * any value may be read into a local (or several, or an annotated local) before use;
+    an iterable may be bound to a local before the loop that walks it; a call result may
+    be bound to a local before it is returned / yielded / raised;
+  * arguments may be positional or keyword (positions come from the callee's signature:
+    DeferredRenderTask fields, Linter.__init__, sequence_files, the funnel, the carrier);
+  * "fields of the same task" means attributes of one and the same object, under any
+    number of local names (task = partial), unpacked from the parameter or indexed;
+  * R24c follows __getstate__ as straight-line code over abstract dicts (live object /
+    copy of it / None): d.copy(), dict(d), copy(d), deepcopy(d); edits made through locals
+    and stored back; del d[k] and d.pop(k);
+  * R24d reads the re-raise test of the funnel as a set of classes: isinstance with a
+    tuple, a disjunction of isinstance tests, if/elif chains, the test held in a boolean
+    local, the inverted test with the logging branch first.  A re-raise that also depends
+    on anything but the class of the exception does not count;
+  * R24f: `if p:` / `if not p:` with swapped branches; annotated attribute assignments;
+    the argument tuple or the whole pair bound to a local.
 """
 
 from __future__ import annotations
@@ -41,12 +62,6 @@ WORKER_LINTER_EXEMPT = {
     "rules": "convenience kwarg, mutually exclusive with config",
     "exclude_rules": "convenience kwarg, mutually exclusive with config",
 }
-
-
-def _attr_of_task(e: ast.expr, attr: str) -> Optional[str]:
-    if isinstance(e, ast.Attribute) and e.attr == attr and isinstance(e.value, ast.Name):
-        return e.value.id
-    return None
 
 
 # ---------------------------------------------------------------------------
@@ -94,8 +109,19 @@ def _is_param(o) -> bool:
     return o.kind == "param" and not o.path
 
 
-def _loops_over(method: str):
-    return lambda o: o.kind == "for" and isinstance(o.expr, ast.Call) and last_attr(o.expr) == method
+def _loop_calls(cfg, o, method: str) -> list:
+    """For the origin of a loop variable: the `<...>.method(...)` calls whose result is iterated
+    (the iterable may be bound to a local before the loop); [] when it is anything else."""
+    if o.kind != "for" or not isinstance(o.expr, ast.AST):
+        return []
+    its = origins(cfg, o.expr, o.stmt)
+    if its and all(x.kind == "expr" and not x.path and isinstance(x.expr, ast.Call) and last_attr(x.expr) == method for x in its):
+        return [(x.expr, x.stmt) for x in its]
+    return []
+
+
+def _loops_over(cfg, method: str):
+    return lambda o: bool(_loop_calls(cfg, o, method))
 
 
 def _value_key(cfg, e: Optional[ast.expr], at) -> Optional[frozenset]:
@@ -184,7 +210,9 @@ def _r24a(chk, repo, mod) -> None:
         seq_cfg_pos = 1
     for q, f in mod.functions():
         cfg = cfg_of(f)
-        from_fnames_param = lambda o: _loops_over("sequence_files")(o) and bool(o.expr.args) and _leaves_are(cfg, o.expr.args[0], o.stmt, _is_param)  # noqa: E731
+        from_fnames_param = lambda o: bool(_loop_calls(cfg, o, "sequence_files")) and all(  # noqa: E731
+            bool(call.args) and _leaves_are(cfg, call.args[0], at, _is_param) for call, at in _loop_calls(cfg, o, "sequence_files")
+        )
         for c in calls_in(f):
             if last_attr(c) != "render_file":
                 continue
@@ -223,7 +251,7 @@ def _r24a(chk, repo, mod) -> None:
                 chk.require(_leaves_are(cfg, a_fix, st, _is_param), "R24a", c, "the lint partial does not forward the runner's fix flag", detail=f"{q}: partial fix flag")
                 a_rend = _arg(c, 1, "rendered")
                 chk.require(
-                    _leaves_are(cfg, a_rend, st, _loops_over("iter_rendered")),
+                    _leaves_are(cfg, a_rend, st, _loops_over(cfg, "iter_rendered")),
                     "R24a", c, "the lint partial is not built on the rendering produced by iter_rendered for that file", detail=f"{q}: partial rendering",
                 )
         # the rule pack of every lint call is built from the per-file config of the rendering it lints
@@ -265,7 +293,7 @@ def _r24a(chk, repo, mod) -> None:
             if last_attr(c) == "DeferredRenderTask":
                 st = cfg.stmt_of(c)
                 a = {name: _arg(c, i, name) for i, name in enumerate(fields)}
-                ok0 = _leaves_are(cfg, a["fname"], st, _loops_over("sequence_files"))
+                ok0 = _leaves_are(cfg, a["fname"], st, _loops_over(cfg, "sequence_files"))
                 ok1 = _leaves_are(cfg, a["root_config"], st, _is_text("self.config"))
                 ok2 = _leaves_are(cfg, a["fix"], st, _is_param)
                 ok3 = _leaves_are(cfg, a["user_rules"], st, lambda o: o.kind == "expr" and isinstance(o.expr, ast.AST) and _mentions(cfg, o.expr, o.stmt, "self.linter.user_rules"))
@@ -313,6 +341,18 @@ def _root_node(e: ast.AST) -> Optional[ast.Name]:
     return e if isinstance(e, ast.Name) else None
 
 
+def _rooted_in_param(cfg, name: ast.Name, at, depth: int = 0) -> bool:
+    """The local holds (a member / an element of) something the function received as a parameter."""
+    def ok(o) -> bool:
+        if o.kind == "param":
+            return True
+        if o.kind == "expr" and isinstance(o.expr, (ast.Attribute, ast.Subscript)) and depth < 4:
+            r = _root_node(o.expr)
+            return r is not None and r is not name and _rooted_in_param(cfg, r, o.stmt, depth + 1)
+        return False
+    return _leaves_are(cfg, name, at, ok)
+
+
 def _from_packet(cfg, v: ast.expr, at) -> bool:
     """Every origin of `v` reads a member of something the function received as a parameter."""
     def leaf_ok(o) -> bool:
@@ -321,7 +361,7 @@ def _from_packet(cfg, v: ast.expr, at) -> bool:
         for x in ast.walk(o.expr):
             if isinstance(x, ast.Attribute):
                 r = _root_node(x)
-                if r is not None and _leaves_are(cfg, r, o.stmt, lambda oo: oo.kind == "param"):
+                if r is not None and _rooted_in_param(cfg, r, o.stmt):
                     return True
         return False
     return _leaves_are(cfg, v, at, leaf_ok)
@@ -401,11 +441,14 @@ def _r24b(chk, repo) -> None:
     loop = None
     runs = lambda x: x.kind == "expr" and isinstance(x.expr, ast.Call) and last_attr(x.expr) == "run"  # noqa: E731
     for n in walk_local(f):
-        if isinstance(n, ast.For) and isinstance(n.iter, ast.Call) and call_name(n.iter) == "enumerate" and n.iter.args:
-            if any(runs(x) for x in origins(cfg, n.iter.args[0], n)):
+        if not isinstance(n, ast.For):
+            continue
+        for x in origins(cfg, n.iter, n):
+            if runs(x):
                 loop = n
-        if isinstance(n, ast.For) and any(runs(x) for x in origins(cfg, n.iter, n)):
-            loop = n
+            elif x.kind == "expr" and isinstance(x.expr, ast.Call) and call_name(x.expr) == "enumerate" and x.expr.args:
+                if any(runs(y) for y in origins(cfg, x.expr.args[0], x.stmt)):
+                    loop = n
     if loop is None:
         raise AnalysisError("R24b: loop over runner.run(...) not found in Linter.lint_paths")
     is_result = lambda e: isinstance(e, ast.Name) and _leaves_are(cfg, e, cfg.stmt_of(e), lambda o: o.kind == "for" and o.stmt is loop)  # noqa: E731
@@ -427,10 +470,12 @@ def _r24b(chk, repo) -> None:
         chk.require(ok, "R24b", c, "a result is filed under a directory that is not looked up by the result's own path (arrival order would matter)", detail="result filed by own path")
     # the lookup table is filled per discovered file
     fills = [n for n in walk_local(f) if isinstance(n, ast.Assign) and isinstance(n.targets[0], ast.Subscript)]
-    ok = any(_leaves_are(cfg, n.targets[0].slice, n, lambda x: x.kind == "for" and isinstance(x.expr, ast.Call) and last_attr(x.expr) == "paths_from_path") for n in fills)
+    ok = any(_leaves_are(cfg, n.targets[0].slice, n, _loops_over(cfg, "paths_from_path")) for n in fills)
     chk.require(ok, "R24b", f, "the path -> LintedDir table is not filled for every file yielded by paths_from_path", detail="lookup table filled per file")
-    # skip counter read after the loop (on every path the loop header has been passed and we are outside its body)
-    after = lambda n: n is not None and not _inside(n, loop) and cfg.dominates(loop, n)  # noqa: E731
+    # skip counter read after the loop: outside its body, downstream of it, and the loop cannot be reached again from there.
+    # (Not decided by dominance: the CFG lets the exceptional exit of a `finally` continue after the try statement, so a
+    # statement placed in front of the loop inside the try would break "the loop dominates what follows the try".)
+    after = lambda n: n is not None and not _inside(n, loop) and cfg.reaches(loop, n) and not cfg.reaches(n, loop)  # noqa: E731
     counter_read_after = lambda o: o.kind == "expr" and isinstance(o.expr, ast.Attribute) and o.expr.attr == "skipped_file_count" and after(o.stmt)  # noqa: E731
     sk = [n for n in walk_local(f) if isinstance(n, ast.Assign) and isinstance(n.targets[0], ast.Attribute) and n.targets[0].attr == "files_skipped"]
     chk.require(bool(sk) and all(after(n) and _leaves_are(cfg, n.value, n, counter_read_after) for n in sk), "R24b", f,
@@ -793,8 +838,9 @@ def _derived_only_param(init, p, const, args, params) -> bool:
                         return False  # only methods of p itself: any other call may set state the else-branch does not replay
         restored = {}
         for st in when_unset:
-            if isinstance(st, ast.Assign) and len(st.targets) == 1 and _self_attr(st.targets[0]) and isinstance(st.value, ast.Name):
-                restored[_self_attr(st.targets[0])] = st.value.id
+            tgt = st.targets[0] if isinstance(st, ast.Assign) and len(st.targets) == 1 else st.target if isinstance(st, ast.AnnAssign) else None
+            if tgt is not None and _self_attr(tgt) and isinstance(st.value, ast.Name):
+                restored[_self_attr(tgt)] = st.value.id
         for attr in derived:
             q = restored.get(attr)
             if q is None or carried.get(q) != attr:
@@ -824,10 +870,11 @@ def _r24f(chk, repo) -> None:
             for item in cc.body:
                 if isinstance(item, FuncNode) and item.name == "__init__":
                     for st in ast.walk(item):
-                        if isinstance(st, ast.Assign) and isinstance(st.targets[0], ast.Attribute) and isinstance(st.targets[0].value, ast.Name) and st.targets[0].value.id == "self":
-                            names = [x.id for x in ast.walk(st.value) if isinstance(x, ast.Name)]
-                            for nm in names:
-                                attr_of.setdefault(st.targets[0].attr, set()).add(nm)
+                        if isinstance(st, (ast.Assign, ast.AnnAssign)) and st.value is not None:
+                            tgt = st.targets[0] if isinstance(st, ast.Assign) else st.target
+                            if _self_attr(tgt):
+                                for nm in [x.id for x in ast.walk(st.value) if isinstance(x, ast.Name)]:
+                                    attr_of.setdefault(tgt.attr, set()).add(nm)
         rets = [r for r in walk_local(red) if isinstance(r, ast.Return)]
         rcfg = cfg_of(red)
         ok, why = True, ""
@@ -1035,6 +1082,112 @@ VARIANTS = [
             "            self.line_no, self.line_pos = pos.source_position()\n",
             "            where = pos.source_position()\n            self.line_no = where[0]\n            self.line_pos = where[1]\n",
             "QUIET", None, "tuple unpacking <-> indexing"),
+    Variant("quiet-serial-deferred-task-alias", RUNNER,
+            "                    rendered = self.linter.render_file(\n                        partial.fname, partial.root_config\n                    )\n"
+            "                    rule_pack = self.linter.get_rulepack(config=rendered.config)\n"
+            "                    yield self.linter.lint_rendered(\n                        rendered, rule_pack, partial.fix, self.linter.formatter\n                    )\n",
+            "                    task = partial\n                    rendered = self.linter.render_file(task.fname, partial.root_config)\n"
+            "                    rule_pack = self.linter.get_rulepack(config=rendered.config)\n"
+            "                    linted = self.linter.lint_rendered(\n                        rendered, rule_pack, task.fix, self.linter.formatter\n                    )\n                    yield linted\n",
+            "QUIET", None, "the packet under a second name; the linted file bound to a local before the yield"),
+    Variant("quiet-worker-packet-by-index", RUNNER,
+            "        fname, task = partial_tuple\n",
+            "        fname = partial_tuple[0]\n        task = partial_tuple[1]\n",
+            "QUIET", None, "tuple unpacking <-> indexing"),
+    Variant("quiet-worker-linter-annotated", RUNNER,
+            "                linter = Linter(\n                    config=task.root_config, user_rules=list(task.user_rules)\n                )\n",
+            "                linter: Linter = Linter(\n                    config=task.root_config, user_rules=list(task.user_rules)\n                )\n",
+            "QUIET", None, "annotated assignment of the rebuilt Linter"),
+    Variant("quiet-sequence-files-iterable-through-local", RUNNER,
+            "        for fname in self.linter.templater.sequence_files(\n            fnames, config=self.config, formatter=self.linter.formatter\n        ):\n",
+            "        ordered = self.linter.templater.sequence_files(\n            fnames, config=self.config, formatter=self.linter.formatter\n        )\n        for fname in ordered:\n",
+            "QUIET", None, "iterable bound to a local before the loop"),
+    Variant("quiet-result-stream-enumerate-through-local", LINTER,
+            "            for i, linted_file in enumerate(runner_iterator, start=1):\n",
+            "            numbered = enumerate(runner_iterator, start=1)\n            for i, linted_file in numbered:\n",
+            "QUIET", None, "enumerate(...) bound to a local before the loop"),
+    Variant("quiet-paths-from-path-through-local", LINTER,
+            "            for fname in paths_from_path(\n                path,\n                ignore_non_existent_files=ignore_non_existent_files,\n                ignore_files=ignore_files,\n                target_file_exts=sql_exts,\n            ):\n",
+            "            found = paths_from_path(\n                path,\n                ignore_non_existent_files=ignore_non_existent_files,\n                ignore_files=ignore_files,\n                target_file_exts=sql_exts,\n            )\n            for fname in found:\n",
+            "QUIET", None, "discovered files bound to a local before the loop"),
+    Variant("quiet-base-error-else-annotated", ERRORS,
+            "            self.line_no = line_no\n            self.line_pos = line_pos\n",
+            "            self.line_no: int = line_no\n            self.line_pos: int = line_pos\n",
+            "QUIET", None, "annotated attribute assignments in the replaying branch"),
+    # breaking edits written in the idioms the QUIET variants use (the generalised matchers must keep their teeth)
+    Variant("worker-fix-flag-local-constant", RUNNER,
+            "                return Linter.lint_rendered(rendered, rule_pack, task.fix, None)",
+            "                fix_flag = False\n                return Linter.lint_rendered(rendered, rule_pack, fix_flag, None)", "R24a", "lint_rendered fix flag"),
+    Variant("worker-root-config-local-from-linter", RUNNER,
+            "                rendered = linter.render_file(task.fname, task.root_config)",
+            "                root = linter.config\n                rendered = linter.render_file(task.fname, root)", "R24a", "render_file root config"),
+    Variant("worker-fields-of-two-different-packets", RUNNER,
+            "                rendered = linter.render_file(task.fname, task.root_config)",
+            "                other = DeferredRenderTask(fname, linter.config, False)\n                rendered = linter.render_file(task.fname, other.root_config)", "R24a", "render_file root config",
+            "root_config read from another packet than the filename"),
+    Variant("serial-rule-pack-local-from-root-config", RUNNER,
+            "            rule_pack = self.linter.get_rulepack(config=rendered.config)\n            yield (\n",
+            "            file_config = self.config\n            rule_pack = self.linter.get_rulepack(config=file_config)\n            yield (\n", "R24a", "iter_partials"),
+    Variant("partial-ignores-fix-flag", RUNNER,
+            "                    fix,\n                    # Formatters may or may not be passed.",
+            "                    False,\n                    # Formatters may or may not be passed.", "R24a", "partial fix flag"),
+    Variant("deferred-packet-keywords-linter-config", RUNNER,
+            "                        fname, self.config, fix, tuple(self.linter.user_rules)",
+            "                        fname=fname, root_config=self.linter.config, fix=fix, user_rules=tuple(self.linter.user_rules)", "R24a", "deferred packet fields"),
+    Variant("deferred-packet-user-rules-local-empty", RUNNER,
+            "                yield (\n                    fname,\n                    DeferredRenderTask(\n                        fname, self.config, fix, tuple(self.linter.user_rules)\n                    ),\n                )\n",
+            "                rules_for_worker = ()\n                yield (fname, DeferredRenderTask(fname, self.config, fix, rules_for_worker))\n", "R24a", "deferred packet user rules"),
+    Variant("sequence-files-positional-linter-config", RUNNER,
+            "            fnames, config=self.config, formatter=self.linter.formatter\n",
+            "            fnames, self.linter.config, formatter=self.linter.formatter\n", "R24a", "sequence_files config"),
+    Variant("worker-templater-local-from-default-config", RUNNER,
+            "                linter.templater = task.root_config.get_templater()\n",
+            "                fresh_templater = linter.config.get_templater()\n                linter.templater = fresh_templater\n", "R24e", "worker templater re-created",
+            "linter.config is the same object today, but the rule asks for the config the worker was given"),
+    Variant("worker-linter-config-not-from-packet", RUNNER,
+            "                    config=task.root_config, user_rules=list(task.user_rules)\n",
+            "                    config=FluffConfig(overrides={\"dialect\": \"ansi\"}), user_rules=list(task.user_rules)\n", "R24e", "worker Linter config from task"),
+    Variant("result-path-local-by-arrival-index", LINTER,
+            "                linted_dir = expanded_path_to_linted_dir[linted_file.path]\n",
+            "                own_path = expanded_paths[i - 1]\n                linted_dir = expanded_path_to_linted_dir[own_path]\n", "R24b", "result filed by own path"),
+    Variant("skip-counter-not-from-runner", LINTER,
+            "        result.files_skipped = runner.skipped_file_count\n",
+            "        result.files_skipped = files_count - len(result.files)\n", "R24b", "skip counter after stream"),
+    Variant("records-sorted-local-then-reversed-key", LRES,
+            "            key=lambda record: record[\"filepath\"],\n        )",
+            "            key=lambda record: len(record[\"violations\"]),\n        )", "R24b", "records sorted by path"),
+    Variant("getstate-local-core-not-copied", FCONF,
+            "        state[\"_configs\"] = state[\"_configs\"].copy()\n        state[\"_configs\"][\"core\"] = state[\"_configs\"][\"core\"].copy()\n        state[\"_configs\"][\"core\"][\"templater_obj\"] = None\n",
+            "        configs = state[\"_configs\"].copy()\n        core = configs[\"core\"]\n        core[\"templater_obj\"] = None\n        state[\"_configs\"] = configs\n", "R24c", "getstate copies before editing",
+            "the inner dict reached through a local is still the live one"),
+    Variant("getstate-replaces-core-section", FCONF,
+            "        state[\"_configs\"][\"core\"][\"templater_obj\"] = None\n",
+            "        state[\"_configs\"][\"core\"] = {\"templater_obj\": None}\n", "R24c", "getstate nulls templater_obj only"),
+    Variant("getstate-pops-overrides-too", FCONF,
+            "        del state[\"_plugin_manager\"]\n",
+            "        state.pop(\"_plugin_manager\")\n        state.pop(\"_overrides\")\n", "R24c", "getstate deletes plugin manager only"),
+    Variant("funnel-reraise-also-needs-no-filename", RUNNER,
+            "        if isinstance(e, (IOError, SQLFluffUserError)):\n",
+            "        if isinstance(e, (IOError, SQLFluffUserError)) and fname is None:\n", "R24d", "funnel re-raises SQLFluffUserError",
+            "the re-raise depends on something besides the class of the exception"),
+    Variant("funnel-boolean-local-io-only", RUNNER,
+            "        if isinstance(e, (IOError, SQLFluffUserError)):\n",
+            "        propagate = isinstance(e, IOError)\n        if propagate:\n", "R24d", "funnel re-raises SQLFluffUserError"),
+    Variant("funnel-conjunction-of-isinstance", RUNNER,
+            "        if isinstance(e, (IOError, SQLFluffUserError)):\n",
+            "        if isinstance(e, IOError) and isinstance(e, SQLFluffUserError):\n", "R24d", "funnel re-raises"),
+    Variant("handler-passes-other-exception-through-local", RUNNER,
+            "            except Exception as e:\n                self._handle_lint_path_exception(fname, e)\n",
+            "            except Exception as e:\n                caught = RuntimeError(str(e))\n                self._handle_lint_path_exception(fname, caught)\n", "R24d", "catch-all feeds funnel"),
+    Variant("reraise-raises-the-carrier", RUNNER,
+            "        raise self.ee.with_traceback(self.tb)\n",
+            "        carried = self\n        raise carried.with_traceback(self.tb)\n", "R24d", "carrier raises carried exception"),
+    Variant("lint-error-reduce-local-tuple-drops-warning", ERRORS,
+            "        return type(self), (\n            self.description,\n            self.segment,\n            self.rule,\n            self.fixes,\n            self.ignore,\n            self.fatal,\n            self.warning,\n        )",
+            "        ctor_args = (\n            self.description,\n            self.segment,\n            self.rule,\n            self.fixes,\n            self.ignore,\n            self.fatal,\n        )\n        return type(self), ctor_args", "R24f", "SQLLintError"),
+    Variant("base-error-flipped-guard-drops-line-pos", ERRORS,
+            "        if pos:\n            self.line_no, self.line_pos = pos.source_position()\n        else:\n            self.line_no = line_no\n            self.line_pos = line_pos\n",
+            "        if not pos:\n            self.line_no = line_no\n            self.line_pos = 0\n        else:\n            self.line_no, self.line_pos = pos.source_position()\n", "R24f", "SQLBaseError"),
     Variant("worker-rule-pack-from-root-config", RUNNER,
             "                rule_pack = linter.get_rulepack(config=rendered.config)\n",
             "                rule_pack = linter.get_rulepack(config=task.root_config)\n", "R24a", "_apply", "seeded C24-2"),
